@@ -34,7 +34,8 @@ impl Out {
 		self.lines.push(s);
 	}
 	pub fn oracle_fail(&mut self, name: &str, detail: impl std::fmt::Display) {
-		let s = format!("!oracle {} {}", name, detail);
+		// `@n`: number of trace lines of this case emitted so far (locates the op for the replay prefix)
+		let s = format!("!oracle {} {} @{}", name, detail, self.lines.len());
 		if let Some(tx) = &self.tx {
 			let _ = tx.send(Msg::Oracle(s.clone()));
 		}
